@@ -38,7 +38,8 @@ def tv_plans(tier, rng):
                     for kind in (("brokenpipe",) if (at % 3 and tier == "quick") else ("brokenpipe", "wouldblock", "timedout", "reset", "other")):
                         w = {"len": n, "salt": k, "failat": at, "failkind": kind}
                         w.update(sc)
-                        plans.append({"id": "f%d" % k, "mode": "write", "layer": layer, "writes": [w]})
+                        # ... and the message handed over after the failed one is emitted as exactly its own frame
+                        plans.append({"id": "f%d" % k, "mode": "write", "layer": layer, "writes": [w, {"len": 5, "salt": k + 1}, {"len": 0, "salt": k + 2, "cap": 2}]})
                         k += 1
     # too large for the 16 bit length: must be refused, nothing written (small count: payloads are logged)
     for layer, n in (("tpkt", 65532), ("tpkt", 65535), ("x224", 65529), ("x224", 65536), ("tpkt", 65531), ("x224", 65528), ("link", 66000)):
